@@ -23,7 +23,19 @@ type sheetsXML struct {
 type sheetRefXML struct {
 	Name    string `xml:"name,attr"`
 	SheetID string `xml:"sheetId,attr"`
-	RID     string `xml:"id,attr"` // r:id attribute for relationship
+	RID     string `xml:"http://schemas.openxmlformats.org/officeDocument/2006/relationships id,attr"` // r:id attribute for relationship
+	// The same attribute in a workbook of the Strict conformance class
+	// (ISO/IEC 29500 Strict), which binds the r prefix to another namespace.
+	RIDStrict string `xml:"http://purl.oclc.org/ooxml/officeDocument/relationships id,attr"`
+}
+
+// relID returns the relationship id of the sheet, whichever conformance
+// class the workbook is written in.
+func (s sheetRefXML) relID() string {
+	if s.RID != "" {
+		return s.RID
+	}
+	return s.RIDStrict
 }
 
 // worksheetXML represents a xl/worksheets/sheet*.xml file structure.
